@@ -15,7 +15,7 @@ ANCHORS = [("qartod.py", "location_test"), ("qartod.py", "gross_range_test"), ("
            ("axds.py", "valid_range_test")]
 RULE = ("every test that handles missing data x all 2^n placements of missing values in the data for n<=6 (9 thorough), "
         "jointly in data and depth (4^n) for n<=4 (6), all 4^n lon/lat placements for n<=4 (6) x missing markers "
-        "{NaN in ndarray, None in list, masked element over NaN, masked element over a finite GOOD-looking value} x a "
+        "{NaN in ndarray, None in list, masked element over NaN, masked element over a finite GOOD-looking value, explicit mask plus unmasked NaN} x a "
         "parameter grid per test that makes GOOD, SUSPECT and FAIL reachable at the present neighbours (for "
         "climatology every member shape: absolute / month / week / dayofyear / quarter x +-zspan x +-fspan x 1-2 "
         "members).  Monitor, per index: missing => flag in {MISSING} (or UNKNOWN where the test is undefined anyway); "
@@ -26,7 +26,7 @@ ASSUMPTIONS = ["needs(i): spike {i-1,i+1}; rate of change / speed / hop {i-1}; o
                "for position tests 'missing' means both coordinates missing"]
 EXHAUSTIVE_ALL = False
 
-MARKERS = ["nan", "none", "masked-nan", "masked-finite"]
+MARKERS = ["nan", "none", "masked-nan", "masked-finite", "masked-mixed"]
 G, U, S, F, M = 1, 2, 3, 4, 9
 
 
@@ -44,6 +44,11 @@ def carrier(vals, miss, marker, poison=None):
         return np.array([np.nan if m else v for v, m in zip(vals, miss)], dtype=float)
     if marker == "none":
         return [None if m else v for v, m in zip(vals, miss)]
+    if marker == "masked-mixed":
+        # a reader masked the fill values, the instrument also wrote NaN: every other missing element is an unmasked NaN
+        odd = [m and (sum(miss[:k]) % 2 == 1) for k, m in enumerate(miss)]
+        data = np.array([np.nan if o else poison if m else v for v, m, o in zip(vals, miss, odd)], dtype=float)
+        return np.ma.MaskedArray(data, mask=np.array([m and not o for m, o in zip(miss, odd)], dtype=bool) if len(miss) else False)
     data = np.array([(np.nan if marker == "masked-nan" else poison) if m else v for v, m in zip(vals, miss)], dtype=float)
     ma = np.ma.MaskedArray(data, mask=np.array(miss, dtype=bool) if len(miss) else False)
     present = [v for v, m in zip(vals, miss) if not m]
@@ -211,7 +216,9 @@ def run(ctx) -> None:
                        "bbox": [9, 49, 13, 51], "range_max": 5000.0}, both,
                       lambda k: ma[k] or mb[k], lambda k: False, {**case, "lon": lon, "lat": lat})
                 judge(ctx, "speed", "argo.speed_test",
-                      {"lon": carrier(lon, ma, marker, 10.0), "lat": carrier(lat, mb, marker, 50.0), "tinp": T(n),
+                      {"lon": carrier(lon, ma, marker, 10.0), "lat": carrier(lat, mb, marker, 50.0),
+                       # (every third placement: pairs of fixes share a time stamp -- nothing is missing there)
+                       "tinp": T(n) if len(pl) and sum(pl) % 3 else gen.times([gen.T0 + 60 * (k // 2) for k in range(n)]),
                        "suspect_threshold": 1, "fail_threshold": 1000}, both,
                       lambda k: ma[k] or mb[k] or (k > 0 and (ma[k - 1] or mb[k - 1])), lambda k: k == 0,
                       {**case, "lon": lon, "lat": lat})
